@@ -377,7 +377,7 @@ func (rr *ResponseReader) VerifyTag() error {
 	}
 	// MAC is padded to 16 bytes, and covers the length of AD (0 in this case)
 	// and ciphertext
-	tail := make([]byte, 0, 32)[:32-(rr.clen%16)]
+	tail := make([]byte, 0, 32)[:16+(16-rr.clen%16)%16]
 	binary.LittleEndian.PutUint64(tail[len(tail)-8:], rr.clen)
 	rr.mac.Write(tail)
 	var ourTag [poly1305.TagSize]byte
